@@ -4,11 +4,15 @@
     the bit iterator yields exactly the bits of any range at every alignment, and push_symbols
     (u64 encoder register, peel and re-emit of the trailing partial byte) appends exactly the code
     words at every alignment.
-    NOT proved (partial): that the nested 256-entry decode tables built by insert_decode and the
-    u16 table-walking decoder map a concatenation of code words back to the symbols; that link of
-    the round trip is decided by the correspondence (the executable model agrees with the crate on
-    bit ranges and decoded symbols exactly) and by the implementation-side oracle. *)
-From FC Require Import Base.Res Region.Region Huffman.Huffman Huffman.HuffOpt Huffman.HuffTree Huffman.Bits Huffman.BitIter Huffman.EncoderOk.
+    the decoder (u16 register, restocking, nested table walk, end-of-item and partial-byte paths)
+    decodes any concatenation of code words exactly, and hence push followed by read returns the
+    pushed symbols at every alignment -- RELATIVE to [tab_ok]: the nested tables built by
+    insert_decode answer every code word with (symbol, length).
+    NOT proved (partial): [tab_ok] for the tables that create_from builds (canonical codes are
+    prefix-free and insert_decode fills disjoint ranges); that link is decided by the
+    correspondence (the executable model agrees with the crate on bit ranges and decoded symbols
+    exactly) and by the implementation-side oracle. *)
+From FC Require Import Base.Res Region.Region Huffman.Huffman Huffman.HuffOpt Huffman.HuffTree Huffman.Bits Huffman.BitIter Huffman.EncoderOk Huffman.DecoderOk Huffman.RoundTrip.
 From Coq Require Import ZArith Permutation Sorted.
 
 (** The greedy (Huffman) cost on the sorted weights is a lower bound for EVERY pairing of the
@@ -68,6 +72,25 @@ Theorem C06_push_symbols_exact : forall h bytes bits syms, wfst bytes bits -> co
     vb bytes' bits' = vb bytes bits ++ concat (map (cw (enc h)) syms) /\
     bits' = bits + list_sum (map (clen (enc h)) syms).
 Proof. exact push_symbols_spec. Qed.
+
+(** The decoder (u16 register restocked from the iterator's chunks, walk through the nested
+    256-entry tables, end-of-item and trailing-partial-byte paths) decodes a concatenation of code
+    words to exactly the symbols and then stops -- relative to [tab_ok]: the tables answer a code
+    word followed by anything with (symbol, its length). *)
+Theorem C06_decoder_exact : forall h C bytes lo hi syms ws, tab_ok (dtab h) C ->
+  Forall2 (fun s w => In (s, w) C) syms ws -> lo <= hi -> hi <= 8 * length bytes ->
+  firstn (hi - lo) (skipn lo (bitstr bytes)) = concat ws ->
+  decode_range h bytes lo hi = Ok syms.
+Proof. exact decode_range_spec. Qed.
+
+(** Round trip at EVERY alignment (relative to [tab_ok] for the container's own tables): push
+    covered symbols behind any bit string, decode the returned range, get the symbols back --
+    empty items, items inside one byte and items spanning many bytes alike. *)
+Theorem C06_roundtrip_every_alignment : forall h bytes bits syms, wfst bytes bits -> covered (enc h) syms ->
+  tab_ok (dtab h) (codes (enc h)) ->
+  exists bytes' bits', push_symbols h bytes bits syms = Ok (bytes', bits', (bits, bits')) /\
+    wfst bytes' bits' /\ decode_range h bytes' bits bits' = Ok syms.
+Proof. exact huffman_roundtrip. Qed.
 
 (** raw mode (before any merge and after clear) stores the symbols themselves *)
 Theorem C06_raw_roundtrip : forall raw stats v,
